@@ -3474,8 +3474,12 @@ namespace gch
         append_range (first, last, iterator_cat { });
       }
 
+      // Note: This is selected by the iterator category tag, as in assign, insert and append. It
+      //       must not additionally be constrained by the `std::forward_iterator` concept:
+      //       `std::move_iterator` over a forward iterator has a forward category but does not
+      //       model that concept in C++20, and would silently take the single-pass overload.
 #ifdef GCH_LIB_CONCEPTS
-      template <std::forward_iterator ForwardIt>
+      template <std::input_iterator ForwardIt>
 #else
       template <typename ForwardIt>
 #endif
